@@ -16,6 +16,7 @@ import (
 	"go/types"
 	"os"
 	"path/filepath"
+	"regexp"
 	"runtime"
 	"runtime/debug"
 	"runtime/pprof"
@@ -150,7 +151,7 @@ func loadProgram(prop string) *loaded {
 		ld.rootPkgs = append(ld.rootPkgs, sp)
 		rel := strings.TrimPrefix(strings.TrimPrefix(ip.PkgPath, modPath), "/")
 		for name, m := range sp.Members {
-			if fn, ok := m.(*ssa.Function); ok && strings.HasPrefix(name, "Verif") {
+			if fn, ok := m.(*ssa.Function); ok && isHarnessName(name) {
 				ld.harness[name] = fn
 				ld.hpkg[name] = rel
 			}
@@ -662,3 +663,7 @@ func assumptionsFor(prop string, intr []string) []string {
 }
 
 var _ = types.Typ
+
+var harnessNameRe = regexp.MustCompile(`^Verif(C[0-9]+|Selftest)_`)
+
+func isHarnessName(n string) bool { return harnessNameRe.MatchString(n) }
